@@ -182,6 +182,10 @@ def wf_map(m):
 
 CLASS_FILE = {
     "AbstractDissimilarity": "pygamma_agreement/dissimilarity.py",
+    "CombinedCategoricalDissimilarity": "pygamma_agreement/dissimilarity.py",
+    "PositionalSporadicDissimilarity": "pygamma_agreement/dissimilarity.py",
+    "CategoricalDissimilarity": "pygamma_agreement/dissimilarity.py",
+    "AbsoluteCategoricalDissimilarity": "pygamma_agreement/dissimilarity.py",
     "Continuum": "pygamma_agreement/continuum.py", "Unit": "pygamma_agreement/continuum.py",
     "GammaResults": "pygamma_agreement/continuum.py",
     "UnitaryAlignment": "pygamma_agreement/alignment.py", "Alignment": "pygamma_agreement/alignment.py",
@@ -368,7 +372,14 @@ def method_contract(self, cls, m):
     return None
 
 
-CLASS_BASES = {"SoftAlignment": ["Alignment"]}
+CLASS_BASES = {"SoftAlignment": ["Alignment"],
+               "CombinedCategoricalDissimilarity": ["AbstractDissimilarity"],
+               "PositionalSporadicDissimilarity": ["AbstractDissimilarity"],
+               "AbsoluteCategoricalDissimilarity": ["CategoricalDissimilarity", "AbstractDissimilarity"],
+               "CategoricalDissimilarity": ["AbstractDissimilarity"]}
+SUBCLASSES = {"AbstractDissimilarity": ["CombinedCategoricalDissimilarity", "PositionalSporadicDissimilarity",
+                                        "CategoricalDissimilarity", "AbsoluteCategoricalDissimilarity"],
+              "Alignment": ["SoftAlignment"]}
 Engine.method_contract = method_contract
 
 
@@ -733,6 +744,12 @@ Engine.order_other = order_other
 
 # ---- attributes
 def attr_model(self, e, base, st, spec):
+    if isinstance(base, Opt) and isinstance(base.val, (UnitV, Rec)) and e.attr in ("segment", "annotation", "s", "e", "lab", "haslab"):
+        # attribute of an Optional unit: None has no such attribute (AttributeError)
+        if not spec:
+            self.oblige(st, z3.Not(base.isnone), f"not-None@{e.lineno}:{e.col_offset}", "exception-freedom", e.lineno,
+                        ast.unparse(e.value) + " is not None")
+        base = base.val
     if isinstance(base, UnitV):
         if e.attr == "segment":
             return base.segment
@@ -830,6 +847,10 @@ def spec_call(self, name, e, st):
     if name == "same_obj":
         a, b = [self.ev(x, st, True) for x in e.args]
         return z3.BoolVal(isinstance(a, Ref) and isinstance(b, Ref) and a.oid == b.oid)
+    if name == "catd":
+        obj, u1, u2 = [self.ev(a, st, True) for a in e.args]
+        f = z3.Function(f"catd#{obj.oid}", B, R, B, R, R)
+        return f(UnitDT.haslab(u1.term), UnitDT.lab(u1.term), UnitDT.haslab(u2.term), UnitDT.lab(u2.term))
     if name == "raw":
         v = self.ev(e.args[0], st, True)
         if isinstance(v, Opt):
@@ -920,6 +941,8 @@ def iter_value(self, v, st, node):
     if isinstance(v, Ref):
         q = self.method_contract(_heap(st, v)["$cls"], "__iter__")
         if q is not None:
+            if self.registry[q].returns_expr is not None:
+                return self.iter_value(self.call_contract(q, node, st, recv=v, argvals=[]), st, node)
             return self.generator_iter(q, node, st, argvals=[v])
     s = set_of(self, st, v)
     if s is not None:
@@ -1141,6 +1164,24 @@ def ctor_model(self, e, st, spec):
         self.oblige(st, s_["n"] > 0, f"no-StopIteration@{e.lineno}:{e.col_offset}", "exception-freedom", e.lineno, ast.unparse(e))
         i = z3.IntVal(0) if ast.unparse(e.args[0].func) == "iter" else s_["n"] - 1
         return wrap(s_["seq"][i])
+    if name == "isinstance" and len(e.args) == 2:
+        v = self.ev(e.args[0], st, spec)
+        cname = ast.unparse(e.args[1])
+        if isinstance(v, Ref):
+            cls = _heap(st, v)["$cls"]
+            if cls == cname or cname in CLASS_BASES.get(cls, []):
+                return z3.BoolVal(True)
+            if cname in SUBCLASSES.get(cls, []):
+                raise EngineError(f"isinstance({cls} object, {cname}): declare the parameter with its concrete class")
+            return z3.BoolVal(False)
+        if is_z3(v) and cname == "str":
+            return z3.BoolVal(v.sort() == R)
+        return NotImplemented
+    if name == "iter" and len(e.args) == 1:
+        v = self.ev(e.args[0], st, spec)
+        if isinstance(v, SList):
+            return v           # iter(list): the same sequence
+        return NotImplemented
     if name.startswith("logging.") or name == "print":
         for a in e.args:
             if not isinstance(a, (ast.JoinedStr, ast.Constant)):
@@ -1264,6 +1305,11 @@ def coerce_arg(self, t, v, st):
         return Opt(z3.BoolVal(False), coerce_elem(self, tmpl, v))
     if isinstance(t, RealT) and is_int(v):
         return z3.ToReal(v)
+    if isinstance(t, UnitT) and isinstance(v, Opt) and isinstance(v.val, UnitV):
+        # an Optional[Unit] passed where a Unit is expected: it must not be None on this path
+        self.oblige(st, z3.Not(v.isnone), f"unit-not-None#{len(self.obls)}", "exception-freedom", None,
+                    "a unit argument is not None")
+        return v.val
     return v
 
 
